@@ -11,6 +11,7 @@ pub mod lsb0;
 pub mod multi;
 pub mod ops32;
 pub mod treemap;
+pub mod ub;
 
 pub struct State {
     pub bm: Vec<Option<RoaringBitmap>>,
@@ -112,7 +113,7 @@ pub fn show_opt<T: std::fmt::Display>(o: Option<T>) -> String {
 pub type HResult = Option<String>;
 
 fn dispatch(st: &mut State, toks: &[&str]) -> String {
-    let families: [fn(&mut State, &[&str]) -> HResult; 7] = [
+    let families: [fn(&mut State, &[&str]) -> HResult; 8] = [
         ops32::handle,
         algebra::handle,
         iter32::handle,
@@ -120,6 +121,7 @@ fn dispatch(st: &mut State, toks: &[&str]) -> String {
         multi::handle,
         treemap::handle,
         lsb0::handle,
+        ub::handle,
     ];
     for f in families {
         if let Some(r) = f(st, toks) {
